@@ -48,7 +48,7 @@ RefAt(t) ==
        IF k < 4 \/ t[2] # "#" THEN <<0, "">>
        ELSE LET hex == t[3] = "x"
                 ds == SubSeq(t, IF hex THEN 4 ELSE 3, k - 1)
-                n == IF ds = <<>> \/ Len(ds) > 8 THEN -1 ELSE NumVal(ds, IF hex THEN 16 ELSE 10, 0) IN
+                n == IF ds = <<>> THEN -1 ELSE NumVal(ds, IF hex THEN 16 ELSE 10, 0) IN          \* any number of leading zeros; NumVal stops above MaxCode
             IF n < 1 \/ n > MaxCode THEN <<0, "">> ELSE <<k, TokenOf(n)>>
 \* decoder: <<ok, text>> ; ok = FALSE when a bare special or something that is not a reference is met
 RECURSIVE Unesc(_)
